@@ -210,6 +210,9 @@ def ack_script(rng):
         if rng.chance(1, 5):
             w = rng.choice([1, 2, 3, 5, 8, 13, 50])
             s.peer(5, 0, struct.pack(">I", hi + w))
+        if rng.chance(1, 6):
+            # a Set Peer Bandwidth (any limit type, often smaller than the window) limits OUR output; it says nothing about the window
+            s.peer(6, 0, struct.pack(">IB", rng.choice([0, 1, 2, max(1, w // 2), w, 1000]), rng.choice([0, 1, 2])))
     return "client " + " | ".join(s.ops)
 
 
